@@ -11,14 +11,22 @@ import vlib
 from props.common import corpus_check
 
 
-def dump_tree(node):
+def dump_tree(node, depth: int = 0):
+    """the tree the parser walks: griffe's modules/classes/functions/attributes views contain inherited and imported members
+    as aliases; resolvable ones are part of the tree (an inherited __init__ is found by the lookup), others are left out"""
     kind = "module" if node.is_module else "class" if node.is_class else "function" if node.is_function else "attribute"
     members = []
-    for coll in (node.modules, node.classes, node.functions, node.attributes):
-        for m in coll.values():
-            if getattr(m, "is_alias", False):
-                continue
-            members.append(dump_tree(m))
+    if depth < 6:
+        for coll in (node.modules, node.classes, node.functions, node.attributes):
+            for m in coll.values():
+                if getattr(m, "is_alias", False):
+                    try:
+                        m.final_target  # noqa: B018
+                    except Exception:  # noqa: BLE001
+                        continue
+                    if depth >= 5:
+                        continue
+                members.append(dump_tree(m, depth + 1))
     doc = node.docstring.value if node.docstring is not None else None
     return [node.name, kind, vlib.opt(doc), members]
 
@@ -57,7 +65,7 @@ def cache_l0(ctx):
                 r = rng.random()
                 if qs and r < 0.35:
                     qs.append(rng.choice(qs))          # repeat an earlier query
-                elif r < 0.97:
+                elif r < 0.92:
                     qs.append(rng.choice(pool))
                 else:
                     qs.append(rng.choice(pool) + ".missing_member")
@@ -66,26 +74,28 @@ def cache_l0(ctx):
             setattr(parser, "_DocstringParser__cached_docstring", None)
             got = []
             err = None
+            err_q = None
             for q in qs:
                 try:
                     d = get(q)
                     got.append(None if d is None else d.value)
                 except Exception as e:  # noqa: BLE001
                     err = type(e).__name__
+                    err_q = q
                     break
             cases.append(vlib.sx(["doc_cache", tree, qs]))
-            meta.append((qs, got, err))
+            meta.append((qs, got, err, err_q, p.name))
     implrun.cleanup()
     model = vlib.run_model(cases)
     dis, vio = [], []
     nontriv = 0
-    for (qs, got, err), m in zip(meta, model, strict=True):
+    for (qs, got, err, err_q, pname), m in zip(meta, model, strict=True):
         cached, uncached = m
         if len(set(qs)) < len(qs) and any(q.endswith("__init__") for q in qs):
             nontriv += 1
         if err:
             if cached[0] != "err" or cached[1] != err:
-                dis.append({"case": qs, "impl": err, "model": cached})
+                dis.append({"case": qs, "impl": err, "raised_at": err_q, "package": pname, "model": cached})
             continue
         want = [None if not x else x[0] for x in cached[1]] if cached[0] == "ok" else None
         if want != got:
